@@ -62,6 +62,28 @@ CHECKS = {
              "Reflexivity and exception-freedom are checked on every base block.",
         note="Trusted: E1 semantics, z3. The external forves adapter is not exercised (no forves binary in the sandbox): "
              "that clause of the property is outside the claim. Pairs outside the mutation families are not covered."),
+    "C08": dict(
+        level="translation_validation", design="5/C08", engine="pysym on the decision logic + independent cost model on pipeline outputs",
+        technique="symbolic execution of the accept/reject and selection functions (AST -> z3) with symbolic cost vectors; "
+                  "independent cost model on every emitted block",
+        text="improves_criterion, block_has_been_optimized, compare_best_block, update_*_count and get_ins_size are executed "
+             "symbolically from their current source; z3 decides for all cost vectors (all PUSH constants) that acceptance "
+             "coincides with the lexicographic rule of the property, that the selected candidate saves at least as much as "
+             "the other, and that the byte size equals the independent formula. Every block of the families is run through "
+             "the pipeline under the 12 covering option sets and measured by an independent cost table.",
+        note="Trusted: vlib.pysym, vlib.cost (context dependent gas at its minimum + non-increasing occurrence counts; "
+             "memory expansion not modelled), z3. choose_best_solution is exercised through the pipeline only."),
+    "C17": dict(
+        level="other", design="5/C17", engine="pysym on generate_push_instruction + enumerated finite domains + pipeline",
+        technique="symbolic execution (AST -> z3) of the push generator with a symbolic PUSH0 flag and constant; finite "
+                  "domains (flag x spelling, contract selections) enumerated",
+        text="generate_push_instruction runs symbolically with the PUSH0 switch and the constant symbolic: z3 decides on "
+             "every path that name, id, gas and size are those of PUSH0 exactly when the flag is on and the constant is "
+             "zero. The pricing/emission of both spellings of a zero push and the five contract selections are finite "
+             "domains and are enumerated; pipeline outputs under both flag settings are checked for PUSH0 leakage and for "
+             "agreement of the tool's accounting with the independent cost model.",
+        note="Trusted: vlib.pysym, vlib.cost. Only the first clause has a semantic variable for a solver; the rest is "
+             "exhaustive enumeration of small finite domains plus translation validation on pipeline outputs."),
     "C11": dict(
         level="translation_validation", design="5/C11", engine="E1 EVM-SMT on replayed logs + fresh-process round trip",
         technique="bounded-exhaustive tamper space; every log the real replay accepts is decided by SMT block equivalence",
